@@ -58,6 +58,8 @@ def rand_problem(rng, cls, linear=False):
         # declared linear (`model.islinear`): the implementation may keep the Jacobian of the first step; with a time-independent
         # Jacobian (c3 = 0) that is the same linearisation as the model's, which recomputes it
         islinear = 1; c[3] = 0.0
+    elif cls not in IMPLICIT and linear and rng.random() < 0.4:
+        islinear = 1      # explicit integrators ignore the flag: the time step still follows the state and the CFL number of each call
     w = [abs(dyadic(rng, 0.25, 1.0, 3)) + 0.25 for _ in range(n)]
     q0 = [dyadic(rng, -1.5, 1.5, 4) for _ in range(n)]
     if cls in IMPLICIT:
@@ -165,6 +167,11 @@ def layer_driver(ctx):
             cl = rand_call(ctx.rng, t0, cj * min(p['w']), j == 0, cls, level=j)
             cl['cfl'] = cj
             calls.append(cl)
+        if cls == 'gear' and (i // len(CLASSES)) % 2 == 0:
+            # a multistep integrator serving a SECOND solve(): the new integration starts again without memory
+            if len(calls) < 2:
+                cl = rand_call(ctx.rng, t0, cfl * min(p['w']), False, cls, level=1); cl['cfl'] = cfl; calls.append(cl)
+            calls[1]['kind'] = 'solve'
         hist.append(dict(p=p, cfl=cfl, t0=t0, it0=it0, calls=calls))
     # implementation side: run each history on ONE solver object
     for h in hist:
@@ -175,6 +182,7 @@ def layer_driver(ctx):
             f = impl.field.fdata(FModel(p.get('islinear', 0)), FMesh(p['n']), [np.array(p['q0'], dtype=float)], t=h['t0'], it=h['it0'])
             outs = []
             mon_objs = {}
+            earlier = []       # (monitor dict of an earlier call, what it had recorded when that call returned)
             for call in h['calls']:
                 mons = {'m%d' % j: {'type': 'data_average', 'data': 'x', 'frequency': fr} for j, fr in enumerate(call['freqs'])}
                 keep = (f.time, f.it, [d.copy() for d in f.data])
@@ -187,6 +195,9 @@ def layer_driver(ctx):
                                  nit=solver.nit(), totnit=solver.totnit(), time=float(solver.Qn.time), data=np.array(solver.Qn.data[0], dtype=float).copy(),
                                  mons=[(list(mons[k]['output']._it), list(mons[k]['output']._time), list(mons[k]['output']._value)) if 'output' in mons[k] else ([], [], [])
                                        for k in sorted(mons)], untouched=untouched))
+                outs[-1]['earlier_monitors_stable'] = all([(list(m_[k]['output']._it), list(m_[k]['output']._value)) if 'output' in m_[k] else ([], []) for k in sorted(m_)] == rec_
+                                                          for m_, rec_ in earlier)
+                earlier.append((mons, [(list(mons[k]['output']._it), list(mons[k]['output']._value)) if 'output' in mons[k] else ([], []) for k in sorted(mons)]))
                 # next call starts from the last returned field
                 if len(res) > 0:
                     f = res[-1]
@@ -221,6 +232,7 @@ def layer_driver(ctx):
             tsc = max(1.0, abs(h['t0']) + 8 * max(c_['cfl'] for c_ in h['calls']))
             okc = True
             okc &= r.compare_exact(cls + '/caller-field-untouched', inp, im['untouched'], True)
+            okc &= r.compare_exact(cls + '/monitors-of-earlier-calls-not-extended', inp, im.get('earlier_monitors_stable', True), True)
             okc &= r.compare_exact(cls + '/nit', inp, im['nit'], m['nit'])
             itstart = 0 if call['kind'] == 'solve' else max(im['inp'][1], 0)
             okc &= r.compare_exact(cls + '/totnit', inp, im['totnit'], itstart + m['nit'])
